@@ -287,7 +287,10 @@ func (m *docMut) write(sb *strings.Builder, n *oracle.Node, depth int) {
 
 func (m *docMut) writeUnknown(sb *strings.Builder, sep func()) {
 	sep()
-	sb.WriteString(quote([]string{"unknown", "zz", "Q", "é", "0", "a b", "__"}[m.r.Intn(7)]))
+	// names no member has, plain and with what the scanner for unmatched names has to step over:
+	// escaped quotes and backslashes (also as the last thing before the closing quote), \u escapes
+	names := []string{"unknown", "zz", "Q", "é", "0", "a b", "__", "x\\", "\\", "C:\\dir\\", "q\"", "\"", "\\\"", "a\\\\", "tab\t", "u\u00e9\\"}
+	sb.WriteString(quote(names[m.r.Intn(len(names))]))
 	sb.WriteByte(':')
 	if m.kind == "nested-unknown" {
 		sb.Write(Doc(m.r, 3))
